@@ -389,6 +389,41 @@ theorem not_update_eq_full_without_depsComplete :
     rw [this]
     simp [demoFull]
 
+/-! ### … and so is `diffComplete`: a snapshot that leaves a field out
+
+The same program with a snapshot diff that never reports name 1 — the shape of the astdiff.py defects found by the
+correspondence (known findings C03-snapshot-frozen, C03-snapshot-classvar, seeded TypeVar `default`): dependency
+generation is complete, the checker is local, the update returns normally, and the error of unit 20 is missed. -/
+
+def demoWns (k : Nat) : World := { demoW k with snapDiff := fun _ _ => [] }
+
+def demoU1ns : UpdSt := match update (demoWns 5) demoU0 [0] with
+  | some u => u
+  | none => demoU0
+
+theorem demoFull_consistent_ns : Consistent (demoWns 5) demoFull :=
+  ⟨demoFull_consistent.errs, demoFull_consistent.nonunit, demoFull_consistent.defs, demoFull_consistent.unowned⟩
+
+theorem not_update_eq_full_without_diffComplete :
+    ∃ (W W' : World) (C : List Mod) (u u' : UpdSt) (sFull : SemSt),
+      Edit W W' C ∧ C ≠ [] ∧ Determinate W' ∧ Consistent W' sFull ∧
+      (∀ t e e', (∀ n ∈ (W'.checkT t e).reads, e n = e' n) → W'.checkT t e' = W'.checkT t e) ∧
+      (∀ t e, ∀ n ∈ (W'.checkT t e).reads, Reach (W'.depGen t e) [Node.trig n] (.tgt t)) ∧
+      update W' u C = some u' ∧ ∃ t, u'.st.emap t ≠ sFull.emap t := by
+  refine ⟨demoWns 0, demoWns 5, [0], demoU0, demoU1ns, demoFull, ?_, by simp, ?_, demoFull_consistent_ns, ?_, ?_, ?_, 20, ?_⟩
+  · exact ⟨rfl, rfl, fun _ _ => Iff.rfl, demo_edit.check_eq, fun _ _ => rfl⟩
+  · exact demoW_determinate 5
+  · exact (demoW_ok 5).frame
+  · exact (demoW_ok 5).depsComplete
+  · have hs : (update (demoWns 5) demoU0 [0]).isSome = true := by decide
+    unfold demoU1ns
+    cases h : update (demoWns 5) demoU0 [0] with
+    | none => rw [h] at hs; cases hs
+    | some u => rfl
+  · have : demoU1ns.st.emap 20 = [] := by decide
+    rw [this]
+    simp [demoFull]
+
 end FineGrained
 
 namespace FsWatch
